@@ -1,4 +1,4 @@
-(** C10 — statements that are NOT proved yet (kept as definitions so that nothing unproved is
+(** C10 — statements that are NOT proved (kept as definitions so that nothing unproved is
     presented as a theorem).  What is missing for each is said next to it. *)
 From Coq Require Import List ZArith Bool.
 From Kardia Require Import C10.U256 C10.EVM C10.ProofsInv C10.ProofsGas Generated.C10Facts.
@@ -9,36 +9,28 @@ Section Open.
 Variable keccak : list Z -> Z.
 Variable blockhash : Z -> Z.
 
-Definition frames_gas (l : list frame) : Z := fold_right (fun f acc => f_gas f + acc) 0 l.
-(** gas held by a configuration: the frames' gas, or the final leftover *)
-Definition total_gas (c : config) : Z :=
-  match c_status c with Final _ _ g => g | _ => frames_gas (c_frames c) end.
-
-(** C10_gas_monotone: the total gas never increases.  Missing: the per-instruction accounting
-    (dynamic cost >= 0 needs the memory-cost invariant [f_mcost <= cost(|mem|/32)]; the call stipend
-    is covered by the 9000 value-transfer charge — both side conditions are already checked on the
-    generated constants in ProofsTables.limits_ok). *)
-Definition C10_gas_monotone_statement : Prop :=
-  forall e c, reachable_g keccak blockhash e c -> total_gas (step keccak blockhash e c) <= total_gas c.
-
-(** C10_step_bound: every step of a running configuration either finishes or strictly decreases
-    [total_gas + number of frames]; hence at most gas + 1 steps are taken.  The table side condition
-    ("every present non-halting opcode has constant gas >= 1 or a modelled dynamic gas with lower
-    bound >= 1; frame-creating opcodes cost >= 2") IS proved: C10_tables_consistent. *)
-Definition C10_step_bound_statement : Prop :=
-  forall e c, reachable_g keccak blockhash e c -> c_status c = Running ->
-    is_final (step keccak blockhash e c) = true \/
-    total_gas (step keccak blockhash e c) + Z.of_nat (length (c_frames (step keccak blockhash e c))) + 1
-      <= total_gas c + Z.of_nat (length (c_frames c)).
-
-(** termination of the extracted runner: 2^64 steps of fuel always suffice for uint64 gas *)
-Definition C10_run_terminates_statement : Prop :=
-  forall e w target input gas value, 0 <= gas < 2 ^ 64 - 1 ->
-    is_final (run_call keccak blockhash e w target input gas value) = true.
-
-(** every value on every stack is a 256-bit word (needs the balance/nonce/gas < 2^256 invariants of
-    the world in addition to ProofsArith's range-closure lemmas) *)
+(** every value on every stack is a 256-bit word.  Missing: the invariants that balances, nonces,
+    gas, environment values and hash results are below 2^256 (ProofsArith has the range closure of
+    every arithmetic instruction). *)
 Definition C10_stack_words_statement : Prop :=
   forall e c f x, reachable_g keccak blockhash e c -> In f (c_frames c) -> In x (f_stack f) -> is_word x.
+
+(** memory grows in whole 32-byte words and no write lands outside it (KVM would panic in Memory.Set
+    otherwise).  Missing: the link between each instruction's memory-size function and the range it
+    writes, and the cross-frame fact that a callee's return range lies inside the caller's resized
+    memory.  (Observed, not proved: no panic in any generated run.) *)
+Definition C10_memory_word_granular_statement : Prop :=
+  forall e c f, reachable_g keccak blockhash e c -> In f (c_frames c) -> (length (f_mem f) mod 32 = 0)%nat.
+
+(** contract used by C09: a top-level call never returns more gas than it was given and leaves the
+    world unchanged unless it succeeds.  The first half follows from C10_gas_monotone and the second
+    from C10_failed_frame_no_change; the combined statement over [run_call] has not been assembled. *)
+Definition C10_exec_ok_statement : Prop :=
+  forall e w t input g v, 0 <= g < 2 ^ 64 - 1 ->
+    match c_status (run_call keccak blockhash e w t input g v) with
+    | Final o _ g' => 0 <= g' <= g /\ (o <> OOk -> c_world (run_call keccak blockhash e w t input g v) = w)
+    | Unsupported => True
+    | Running => False
+    end.
 
 End Open.
